@@ -182,7 +182,10 @@ class Repo:
         self._load()
         self._index()
         self.inlined_helpers = set()
+        self.residual = {}       # qualified name of a known function -> new helpers it still calls after inlining
+        self.specialised = []
         if os.environ.get("VERIF_NO_INLINE") != "1":
+            self._specialise_dispatch()
             self._inline_new_helpers()
 
     # -- loading
@@ -264,6 +267,24 @@ class Repo:
                 self.funcs.setdefault(fi.qual, []).append(fi)
                 self._index_nested(n, rel, prefix + n.name + ".", cls, fi)
 
+    def _specialise_dispatch(self):
+        """table-driven dispatch (constant tuples / dicts of handlers) is rewritten into the if/elif chain it stands for (sa/pe.py)"""
+        from .pe import specialise_function
+        for lst in list(self.funcs.values()):
+            for fi in list(lst):
+                node = specialise_function(self, fi)
+                if node is not None:
+                    self._replace_node(fi, node)
+                    self.specialised.append(fi.qual)
+
+    def _replace_node(self, fi, node):
+        for q in [q for q in self.funcs if q.startswith(fi.qual + ".")]:
+            self.funcs[q] = [x for x in self.funcs[q] if x.parent is not fi and not _descends(x, fi)]
+            if not self.funcs[q]:
+                del self.funcs[q]
+        fi.node = node
+        self._index_nested(node, fi.module, fi.qual + ".", fi.cls, fi)
+
     def _inline_new_helpers(self):
         """calls from known functions to helpers that did not exist on the pinned tree are replaced by the helper's body
         (see sa/inline.py); the helpers themselves are then skipped by package-wide scans (their code is seen in the callers)."""
@@ -292,6 +313,24 @@ class Repo:
                     fi.node = node
                     self._index_nested(node, fi.module, fi.qual + ".", fi.cls, fi)
         self.inlined_helpers = set(inl.used)
+        # known functions that still call a new helper / instantiate a new class after inlining (generators, recursion, closures
+        # returned as values, helper classes): their structure is not fully visible to the rules
+        new_classes = {c.name for lst in self.classes.values() for c in lst
+                       if c.methods and all(m.qual not in known for m in c.methods.values())}
+        for lst in list(self.funcs.values()):
+            for fi in list(lst):
+                if fi.qual not in known:
+                    continue
+                left = set()
+                for n in walk_local(fi.node):
+                    if isinstance(n, ast.Call):
+                        r = inl.resolve(n, fi)
+                        if r:
+                            left.add(r[0].qual)
+                        elif isinstance(n.func, ast.Name) and n.func.id in new_classes:
+                            left.add(n.func.id)
+                if left:
+                    self.residual[fi.qual] = sorted(left)
 
     # -- lookups (anchors are qualified names, never paths or lines)
     def fn(self, qual, module=None, optional=False):
@@ -428,6 +467,13 @@ class Check:
     def violation(self, rule, where, construct, detail, sink=None):
         c = src(construct) if isinstance(construct, ast.AST) else str(construct)
         qual = where.qual if hasattr(where, "qual") else (where.name if hasattr(where, "name") else str(where))
+        left = getattr(self.repo, "residual", {}).get(qual)
+        if left:
+            # the function was restructured through helpers the normaliser could not splice in: what the rule sees is incomplete,
+            # so "construct missing / different" is not evidence of a violation (not recognised != wrong, DESIGN section 1)
+            self.error(rule, f"{qual} now delegates to {', '.join(left)}, which could not be inlined (generator / recursion / closure / "
+                             f"helper class); the rule cannot vouch for it [{detail[:120]}]")
+            return
         key = f"rule={rule} construct={qual}#{sink if sink is not None else ' '.join(c.split())[:60]}"
         self.obligations.append(dict(rule=rule, site=self._site(where), construct=c, verdict="violation",
                                      detail=detail, key=key,
